@@ -147,11 +147,11 @@ func getClientRoles(claims *accessClaims) []string {
 			continue
 		}
 
-		var roles interface{}
-		if roles, ok = accessMap["roles"]; !ok {
+		roles, ok := accessMap["roles"].([]interface{})
+		if !ok {
 			continue
 		}
-		for _, role := range roles.([]interface{}) {
+		for _, role := range roles {
 			clientRoles = append(clientRoles, fmt.Sprintf("%s:%s", clientName, role))
 		}
 	}
